@@ -59,8 +59,10 @@ def c01(ctx):
 
 def c02(ctx):
     ctx.assumptions += LANE_ASSUME
-    _with_mc(ctx, lambda: mc_intlane(ctx, ['C02']),
-             lambda: runner.lane_facts(ctx, 'drv_int.cpp', 'cmp', INT_GROUPS))
+    def conf():
+        runner.lane_facts(ctx, 'drv_int.cpp', 'cmp', INT_GROUPS)
+        runner.lane_facts(ctx, 'drv_fp.cpp', 'fcmp', [32, 64])
+    _with_mc(ctx, lambda: mc_intlane(ctx, ['C02']), conf)
 
 
 def c04(ctx):
@@ -86,8 +88,10 @@ def c06(ctx):
 
 def c07(ctx):
     ctx.assumptions += LANE_ASSUME
-    _with_mc(ctx, lambda: mc_intlane(ctx, ['C07']),
-             lambda: runner.lane_facts(ctx, 'drv_int.cpp', 'select', INT_GROUPS))
+    def conf():
+        runner.lane_facts(ctx, 'drv_int.cpp', 'select', INT_GROUPS)
+        runner.lane_facts(ctx, 'drv_fp.cpp', 'fselect', [32, 64])
+    _with_mc(ctx, lambda: mc_intlane(ctx, ['C07']), conf)
 
 
 ALL_GROUPS = [8, 16, 32, 64]
@@ -214,6 +218,60 @@ def c18(ctx):
     _with_mc(ctx, mc, conf)
 
 
+FP_GROUPS = [32, 64]
+FP_ASSUME = LANE_ASSUME[:1] + [
+    'inputs: special-value / binade-edge / halfway lattice (squared for binary operations) plus seeded random bit patterns; not all 2^32 / 2^64 patterns',
+    'correct rounding is accepted by postcondition through exact bignum comparisons (RoundsTo); FP.tla itself is validated against an independent exact-rational oracle on labelled facts (MC_FPSelf)',
+    'flush-to-zero / denormals-are-zero are off (observed in every env fact); NaN payloads and NaN signs of arithmetic results are not constrained',
+] + LANE_ASSUME[2:]
+
+
+def mc_fpself(ctx):
+    import subprocess, os
+    n = 60000 if ctx.tier == 'thorough' else 6000
+    path = os.path.join(ctx.scratch, 'fpself.ndjson')
+    subprocess.check_call(['python3', os.path.join(runner.VERIF, 'tools', 'fp_oracle.py'), str(n), str(ctx.seed), path])
+    with open(path) as f:
+        lines = f.read().split('\n')
+    lines = [l for l in lines if l]
+    k = 8
+    paths = []
+    for i in range(k):
+        p = os.path.join(ctx.scratch, 'fpself_%d.ndjson' % i)
+        with open(p, 'w') as f:
+            f.write('\n'.join(lines[i::k]) + '\n')
+        paths.append(p)
+    res = runner.tlc.validate_chunks('MC_FPSelf', paths, ctx.scratch, 'fpself', parallel=8)
+    tot = sum(c for c, _ in res)
+    bad = sum(len(r) for _, r in res)
+    if bad:
+        raise runner.tlc.TLCError('FP.tla disagrees with the exact-rational oracle on %d of %d labelled facts' % (bad, tot))
+    ctx.ev['states'] += tot
+    ctx.ev['transitions'] += tot
+    ctx.ev['mc_runs'].append({'module': 'MC_FPSelf', 'tag': 'oracle-labelled facts (correct and corrupted)', 'distinct_states': tot, 'states_generated': tot})
+
+
+def _fp(ctx, family):
+    ctx.assumptions += FP_ASSUME
+    _with_mc(ctx, lambda: mc_fpself(ctx), lambda: runner.lane_facts(ctx, 'drv_fp.cpp', family, FP_GROUPS))
+
+
+def c10(ctx):
+    _fp(ctx, 'farith')
+
+
+def c11(ctx):
+    _fp(ctx, 'fround')
+
+
+def c12(ctx):
+    _fp(ctx, 'fmanip')
+
+
+def c13(ctx):
+    _fp(ctx, 'fclass')
+
+
 CHECKS = {
-    'C01': c01, 'C02': c02, 'C03': c03, 'C04': c04, 'C05': c05, 'C06': c06, 'C07': c07, 'C08': c08, 'C09': c09, 'C14': c14, 'C15': c15, 'C18': c18, 'C20': c20,
+    'C01': c01, 'C02': c02, 'C03': c03, 'C04': c04, 'C05': c05, 'C06': c06, 'C07': c07, 'C08': c08, 'C09': c09, 'C10': c10, 'C11': c11, 'C12': c12, 'C13': c13, 'C14': c14, 'C15': c15, 'C18': c18, 'C20': c20,
 }
